@@ -7,7 +7,7 @@ SPEC = dict(
               "C05_prop_of_model", "not_printable_witness_empty_array", "not_printable_witness_raw_slice",
               "not_printable_witness_raw_slice32", "C05_partial"],
     steps=[
-        dict(bin="sv_c05", label="kernel", area="c05", args=["--mode", "kernel"], n_quick=20000, n_thorough=300000,
+        dict(bin="sv_c05", label="kernel", area="c05", args=["--mode", "kernel"], n_quick=20000, n_thorough=150000,
              dist_keys=("printable", "pos", "res", "tyok", "pa"),
              nontrivial=lambda case, impl, kv: kv.get("printable") == "1" or kv.get("tyok") == "1" or case.startswith("str ")),
         dict(bin="sv_c05", label="modules", area="c05", args=["--mode", "modules"], n_quick=2500, n_thorough=30000,
